@@ -195,6 +195,35 @@ func Strip(v ssa.Value) ssa.Value {
 	}
 }
 
+// Provenance is Strip for rules that ask "where does this value come from when it is something":
+// it also looks through a result temporary of an expanded helper whose only non-constant
+// assignment is one value, whatever constants (nil, 0) the helper's other returns give. Not for
+// rules in which the zero case itself matters (use Strip).
+func Provenance(v ssa.Value) ssa.Value {
+	for i := 0; i < 8; i++ {
+		v = Strip(v)
+		p, ok := v.(*ssa.Phi)
+		if !ok || !strings.HasPrefix(p.Comment, "_ir") {
+			return v
+		}
+		var only ssa.Value
+		for _, e := range p.Edges {
+			if _, isC := e.(*ssa.Const); isC || e == ssa.Value(p) {
+				continue
+			}
+			if only != nil && only != e {
+				return v
+			}
+			only = e
+		}
+		if only == nil {
+			return v
+		}
+		v = only
+	}
+	return v
+}
+
 // ResultTemp looks through the result temporaries that the source-level expansion of a helper
 // introduces (internal/load/reinline.go): `_irN_M` is assigned at each of the helper's returns; on
 // its error/not-found returns it gets a zero constant. When all other assignments give the same
@@ -204,9 +233,35 @@ func ResultTemp(p *ssa.Phi) ssa.Value {
 	if !strings.HasPrefix(p.Comment, "_ir") {
 		return nil
 	}
+	// the temporaries of one expansion share the prefix _ir<N>_
+	prefix := p.Comment
+	if i := strings.LastIndex(prefix, "_"); i > 0 {
+		prefix = prefix[:i+1]
+	}
+	var errSiblings []*ssa.Phi
+	for _, in := range p.Block().Instrs {
+		q, ok := in.(*ssa.Phi)
+		if !ok {
+			break
+		}
+		if q != p && strings.HasPrefix(q.Comment, prefix) && types.Identical(q.Type(), errorType) {
+			errSiblings = append(errSiblings, q)
+		}
+	}
 	var only ssa.Value
-	for _, e := range p.Edges {
+	for i, e := range p.Edges {
 		if _, isC := e.(*ssa.Const); isC {
+			// a zero value is looked through only where the helper returned an error with it: a
+			// plain `return nil` / `return 0` is a value of its own
+			isErrPath := false
+			for _, q := range errSiblings {
+				if i < len(q.Edges) && !IsNilConst(q.Edges[i]) {
+					isErrPath = true
+				}
+			}
+			if !isErrPath {
+				return nil
+			}
 			continue
 		}
 		if e == ssa.Value(p) {
